@@ -34,29 +34,29 @@ type c08KNode struct {
 	offered []any // the payload objects handed to this node (one entry per call)
 }
 
-func (n *c08KNode) SubmitAggregateAttestations(_ context.Context, x []*phase0.SignedAggregateAndProof) error {
+func (n *c08KNode) SubmitAggregateAttestations(ctx context.Context, x []*phase0.SignedAggregateAndProof) error {
 	n.offered = append(n.offered, x)
-	return n.act()
+	return n.actCtx(ctx)
 }
-func (n *c08KNode) SubmitProposal(_ context.Context, o *api.SubmitProposalOpts) error {
+func (n *c08KNode) SubmitProposal(ctx context.Context, o *api.SubmitProposalOpts) error {
 	n.offered = append(n.offered, o.Proposal)
-	return n.act()
+	return n.actCtx(ctx)
 }
-func (n *c08KNode) SubmitBeaconCommitteeSubscriptions(_ context.Context, x []*apiv1.BeaconCommitteeSubscription) error {
+func (n *c08KNode) SubmitBeaconCommitteeSubscriptions(ctx context.Context, x []*apiv1.BeaconCommitteeSubscription) error {
 	n.offered = append(n.offered, x)
-	return n.act()
+	return n.actCtx(ctx)
 }
-func (n *c08KNode) SubmitProposalPreparations(_ context.Context, x []*apiv1.ProposalPreparation) error {
+func (n *c08KNode) SubmitProposalPreparations(ctx context.Context, x []*apiv1.ProposalPreparation) error {
 	n.offered = append(n.offered, x)
-	return n.act()
+	return n.actCtx(ctx)
 }
-func (n *c08KNode) SubmitSyncCommitteeContributions(_ context.Context, x []*altair.SignedContributionAndProof) error {
+func (n *c08KNode) SubmitSyncCommitteeContributions(ctx context.Context, x []*altair.SignedContributionAndProof) error {
 	n.offered = append(n.offered, x)
-	return n.act()
+	return n.actCtx(ctx)
 }
-func (n *c08KNode) SubmitSyncCommitteeSubscriptions(_ context.Context, x []*apiv1.SyncCommitteeSubscription) error {
+func (n *c08KNode) SubmitSyncCommitteeSubscriptions(ctx context.Context, x []*apiv1.SyncCommitteeSubscription) error {
 	n.offered = append(n.offered, x)
-	return n.act()
+	return n.actCtx(ctx)
 }
 
 // VerifC08_Kinds: each of the six other submission kinds, two nodes: every
@@ -149,6 +149,8 @@ func VerifC08_Kinds() {
 			same = ok && len(x) == 2 && x[0] == syncSubs[0] && x[1] == syncSubs[1]
 		}
 		vnd.Assert(same, "C08.kinds.node-offered-exactly-the-payload")
+		// a node that answers within the timeout is never cut off because another node was faster
+		vnd.Assert(vnd.Implies(nd.latency < timeout, !nd.cutOff), "C08.kinds.delivery-to-a-slower-node-is-not-abandoned")
 		if nd.behave == bAccept {
 			okInTime = vnd.Or(okInTime, nd.latency < timeout)
 		}
